@@ -303,7 +303,7 @@ static inline Encoded encode_all(Config &g, const std::vector<uint8_t> &in, cons
 	}
 	lzma_ret r = init_encoder(&s, g);
 	if (r != LZMA_OK) { E.ret = r; lzma_end(&s); lzma_verif_mf_offset_bias = 0; return E; }
-	drv::Opts o; o.out_cap = out_cap; if (g.entry == E_STREAM_MT) { o.idle_limit = 1u << 30; if (g.timeout) o.small_call_budget = 1500; /* native timed waits are real time */ }
+	drv::Opts o; o.out_cap = out_cap; if (g.entry == E_STREAM_MT) { o.idle_limit = 1u << 30; if (g.timeout) { o.small_call_budget = 1500; o.extra_calls = 100000; } /* native timed waits are real time */ }
 	if (g.entry == E_MICROLZMA) {
 		// single lzma_code(LZMA_FINISH) call with the whole input and a limited output buffer
 		E.bytes.resize(g.micro_limit); static uint8_t z[1];
